@@ -2,6 +2,7 @@ import PMH.Props.C04
 import PMH.Proofs.Collision
 import PMH.Proofs.FYSwapSMH
 import PMH.Proofs.SMH2Coll
+import PMH.Proofs.MseLaw
 /-!
 # C03 — SuperMinHash estimates the Jaccard index without bias (exact finite statement), and the
 single-item sketch is a permutation of integer parts with the drawn fractional parts
@@ -198,5 +199,20 @@ example (p : Nat) (hp : p < 4) :
       ((CS.injAssignments (Fin 3) (Fin 3)).filter
         (fun r => (a r).hsketch.getD p 0 = (b r).hsketch.getD p 0)).card = 2 := ex_collision_third p hp
 end SMH2
+
+
+/-! ### the MSE clause in the counting form of this file, reduced to one named assumption
+
+With `I = |A ∩ B|`, `U = |A ∪ B|`, `H1` is exactly the conclusion of `smh_collision_count` at every position;
+`H2` says that two different positions collide together for at most `(I/U)² · #Ω` assignments (non-positive
+correlation — Ertl 2017 proves it for SuperMinHash; the only part of C03 not mechanised).  Conclusion:
+`Σ_ω (U·#equal positions − m·I)² ≤ m·#Ω·I·(U−I)`, i.e. `MSE ≤ J(1−J)/m` multiplied by `m²U²#Ω`. -/
+theorem mse_bound_of_nonpositive_correlation {α : Type*} {m : ℕ} (hm : 0 < m) (Ω : Finset α) (C : Fin m → α → Prop)
+    [∀ k ω, Decidable (C k ω)] (I U : ℕ) (hU : 0 < U)
+    (H1 : ∀ k, (Ω.filter (C k)).card * U = I * Ω.card)
+    (H2 : ∀ k k', k ≠ k' → (Ω.filter fun ω => C k ω ∧ C k' ω).card * (U * U) ≤ I * I * Ω.card) :
+    ∑ ω ∈ Ω, ((U : ℤ) * ((Finset.univ.filter fun k => C k ω).card : ℤ) - (m : ℤ) * I) ^ 2
+      ≤ (m : ℤ) * Ω.card * I * ((U : ℤ) - I) :=
+  MseLaw.mse_le_ratio hm Ω C I U hU H1 H2
 
 end PMH.C03
